@@ -22,7 +22,8 @@ EXPLANATION = (
     "ValueError subclass, payload type dispatch ends in a TypeError subclass, 268435455 guard, 16-bit integers stored into "
     "a bytearray whose item assignment is the range check); S8 the primitive encoders (remaining length, 16-bit, string) have the "
     "prescribed radix, byte order and continuation/exit tests. Through C01's L2-L4 the decoders read what the encoders write. "
-    "Value-level equality with a reference encoder on concrete inputs is NOT decided.")
+    "Value-level equality with a reference encoder on concrete inputs is NOT decided. "
+    " S3 also follows every argument of connect/publish/subscribe/unsubscribe into a field of the request that is encoded; S9 also covers the decoders of client-bound packets: fixed header skipped the way decodeLength reads it (start 1, mask 0x80, step 1), every field read where the spec-checked encoder of the class puts it, PUBREL's DUP at bit 3 of byte 0.")
 ASSUMPTIONS = ["the MQTT 3.1.1 layout table in this file is a faithful transcription of the OASIS specification"]
 
 # type code, mandatory low nibble, body layout.  body: list of (kind, field, group) ; group = optional-section name
